@@ -533,8 +533,9 @@ Definition admissibleb (c : cfg) (w : world) (o : op) : bool :=
       end
   | OReserve v n | OReserveExact v n =>
       match get_vec v w with
-      | Some vv => (vlen vv + n <=? vcap vv) || fixedb (vbk vv) || (usize_max <? vlen vv + n)
+      | Some vv => ((vlen vv + n <=? vcap vv) && (c_sz c * vcap vv <=? alloc_limit)) || fixedb (vbk vv) || (usize_max <? vlen vv + n)
                    || (grow_okb c vv (vlen vv + n) && (c_sz c * (vlen vv + n) <=? alloc_limit))
+                   || (resizableb (vbk vv) && (c_sz c * vcap vv <=? alloc_limit) && (layout_limit c (vbk vv) <? c_sz c * (vlen vv + n)))
       | None => true
       end
   | OShrinkToFit v | OShrinkTo v _ =>
@@ -582,8 +583,9 @@ Lemma fixedb_sound b : fixedb b = true -> fixed_backend b.
 Proof. destruct b; cbn; intros H; try discriminate; exact I. Qed.
 Lemma adm_reserveb_sound c w v n :
   match get_vec v w with
-  | Some vv => (vlen vv + n <=? vcap vv) || fixedb (vbk vv) || (usize_max <? vlen vv + n)
+  | Some vv => ((vlen vv + n <=? vcap vv) && (c_sz c * vcap vv <=? alloc_limit)) || fixedb (vbk vv) || (usize_max <? vlen vv + n)
                || (grow_okb c vv (vlen vv + n) && (c_sz c * (vlen vv + n) <=? alloc_limit))
+               || (resizableb (vbk vv) && (c_sz c * vcap vv <=? alloc_limit) && (layout_limit c (vbk vv) <? c_sz c * (vlen vv + n)))
   | None => true
   end = true -> adm_reserve c w v n.
 Proof.
@@ -591,11 +593,15 @@ Proof.
   apply orb_prop in H. destruct H as [H|H].
   - apply orb_prop in H. destruct H as [H|H].
     + apply orb_prop in H. destruct H as [H|H].
-      * left. apply N.leb_le. exact H.
-      * right. left. apply fixedb_sound. exact H.
-    + right. right. left. apply N.ltb_lt. exact H.
-  - right. right. right. apply andb_prop in H. destruct H as [H1 H2].
-    split; [apply grow_okb_sound; exact H1|apply N.leb_le; exact H2].
+      * apply orb_prop in H. destruct H as [H|H].
+        -- left. apply andb_prop in H. destruct H as [Ha Hb]. split; apply N.leb_le; assumption.
+        -- right. left. apply fixedb_sound. exact H.
+      * right. right. left. apply N.ltb_lt. exact H.
+    + right. right. right. left. apply andb_prop in H. destruct H as [H1 H2].
+      split; [apply grow_okb_sound; exact H1|apply N.leb_le; exact H2].
+  - right. right. right. right. apply andb_prop in H. destruct H as [H H3]. apply andb_prop in H. destruct H as [H1 H2].
+    split; [|split; [apply N.leb_le; exact H2|apply N.ltb_lt; exact H3]].
+    destruct (vbk vv); try discriminate; [left; reflexivity|right; eexists; reflexivity].
 Qed.
 Lemma adm_shrinkb_sound c w v :
   match get_vec v w with Some vv => c_sz c * vcap vv <=? alloc_limit | None => true end = true -> adm_shrink c w v.
